@@ -4,6 +4,7 @@ import (
 	"bufio"
 	"fmt"
 	"io"
+	"os"
 	"os/exec"
 	"strings"
 	"time"
@@ -114,6 +115,9 @@ func (s *Solver) GetValue(t string) string {
 	if strings.HasPrefix(r, "(error") {
 		s.Errors++
 		s.lastErr = r
+		if os.Getenv("VERIF_DEBUG") != "" {
+			fmt.Println("DEBUG get-value", t, "->", r)
+		}
 		return ""
 	}
 	// ((t v)) -> v
